@@ -296,7 +296,37 @@ func checkC06(ctx *Ctx) {
 			runSlotCase(ctx, cases[i])
 		}
 	})
+	streamingSlots(ctx)
 	slotModelSearch(ctx)
+}
+
+// a streaming producer / consumer pair competes with ordinary tasks for the slots: tasks that read or write a
+// FIFO count like any other task
+func streamingSlots(ctx *Ctx) {
+	for _, max := range []int{2, 3} {
+		vals := []string{"v0", "v1", "v2", "v3", "v4", "v5"}
+		d := &Desc{Name: "streamslots", Max: max, Nodes: []Node{
+			{Name: "src", Kind: "filesource", Paths: []string{"a.txt", "b.txt"}},
+			{Name: "prod", Kind: "proc", Cmd: `( (cat {i:in} ; sleep 0.15 ; echo tail) > {os:out} )`, Outs: map[string]string{"out": "{i:in}.stream"}},
+			{Name: "cons", Kind: "proc", Cmd: `( cat {i:in} > {o:out} )`, Outs: map[string]string{"out": "{i:in}.copy"}},
+			{Name: "sl", Kind: "proc", Cmd: `( sleep 0.06 ; echo {p:x} > {o:out} )`, Outs: map[string]string{"out": "sl.{p:x}.txt"}, FromStr: map[string][]string{"x": vals}}},
+			Edges: []Edge{{From: "src.out", To: "prod.in"}, {From: "prod.out", To: "cons.in"}}}
+		rr := RunWorkflow(d, RunOpts{Pre: map[string]string{"a.txt": "a\n", "b.txt": "b\n"}, Timeout: 30e9})
+		ctx.Res.Eval(fmt.Sprintf("streaming-slots max=%d", max), true, map[string]int{"max": max})
+		ctx.Res.Count("streaming-slots")
+		if rr.Exit != 0 {
+			ctx.Res.Disagree(Violation{What: fmt.Sprintf("streaming slot workflow exited %d: %s", rr.Exit, tail(rr.Stderr)), Witness: max})
+			os.RemoveAll(rr.Dir)
+			continue
+		}
+		iv := cmdIntervals(rr.Trace, func(string) int { return 1 })
+		best, set := maxOverlap(iv)
+		ctx.Res.Count(fmt.Sprintf("peak=%d/%d", best, max))
+		if best > max {
+			ctx.Res.Violate(Violation{What: fmt.Sprintf("with a streaming pair among the tasks %d commands were executing at once, maxConcurrentTasks is %d: %v", best, max, set), Class: "slots.overbound", Witness: map[string]int{"max": max}})
+		}
+		os.RemoveAll(rr.Dir)
+	}
 }
 
 // model search (support only): the slot model instantiated with the record extracted from the
